@@ -41,7 +41,8 @@ fn sr<T>(r: std::io::Result<T>, f: impl FnOnce(T) -> R) -> R {
 }
 
 fn content(n: usize) -> Vec<u8> {
-    (0..n).map(|i| 0x30 + i as u8).collect()
+    // (no short period: the high bits of the index are mixed in)
+    (0..n).map(|i| 0x30u8.wrapping_add(i as u8).wrapping_add(((i >> 8) as u8).wrapping_mul(7))).collect()
 }
 
 #[derive(Clone, Copy, Debug)]
@@ -163,7 +164,7 @@ fn drive_reader<A: ReadVolatile, B: Read>(rep: &Rep, l: usize, pos: u64, seq: &[
 
 fn drive_writer<A: WriteVolatile, B: Write>(rep: &Rep, l: usize, pos: u64, seq: &[Call], a: &mut A, b: &mut B, state: &dyn Fn(&A, &B) -> (String, String)) {
     for (i, c) in seq.iter().enumerate() {
-        let data: Vec<u8> = (0..c.len).map(|j| 0x80 + (i * 32 + j) as u8).collect();
+        let data: Vec<u8> = (0..c.len).map(|j| 0x80u8.wrapping_add((i * 32 + j + (j >> 8) * 7) as u8)).collect();
         let mut vbuf = Local::new(c.len, c.mis, &data);
         let p = vbuf.slice_mut().as_mut_ptr();
         // SAFETY: vbuf outlives the slice
@@ -196,9 +197,28 @@ fn drive_writer<A: WriteVolatile, B: Write>(rep: &Rep, l: usize, pos: u64, seq: 
 
 fn in_memory(ctx: &Ctx, thorough: bool) {
     let seqs = sequences(thorough);
-    for l in 0..=20usize {
+    let small: Vec<usize> = (0..=20).collect();
+    in_memory_cfg(ctx, &small, &seqs, &positions(), thorough);
+    // long streams and buffers (around one page and 2^16): single calls and pairs
+    let big = [4095usize, 4096, 4097, 65536, 65537];
+    let mut seqs: Vec<Vec<Call>> = Vec::new();
+    for &a in &big {
+        for ea in [false, true] {
+            seqs.push(vec![Call { len: a, exact: ea, mis: 3 }]);
+            for &b in &[1usize, 4096, 65537] {
+                seqs.push(vec![Call { len: a, exact: ea, mis: 0 }, Call { len: b, exact: !ea, mis: 5 }]);
+            }
+        }
+    }
+    for l in [4096usize, 65537, 70001] {
+        in_memory_cfg(ctx, &[l], &seqs, &[0, 1, l as u64 - 4096, l as u64 - 1, l as u64, l as u64 + 1], true);
+    }
+}
+
+fn in_memory_cfg(ctx: &Ctx, lens: &[usize], seqs: &[Vec<Call>], positions: &[u64], thorough: bool) {
+    for &l in lens {
         let data = content(l);
-        for seq in &seqs {
+        for seq in seqs {
             // &[u8]
             {
                 let rep = Rep { ctx, adapter: "&[u8]" };
@@ -221,7 +241,7 @@ fn in_memory(ctx: &Ctx, thorough: bool) {
                 let (mut a, mut b) = (data.clone(), data.clone());
                 drive_writer(&rep, l, 0, seq, &mut a, &mut b, &|a, b| (hex(a), hex(b)));
             }
-            for pos in positions() {
+            for &pos in positions {
                 {
                     let rep = Rep { ctx, adapter: "Cursor<&[u8]>" };
                     let (mut a, mut b) = (Cursor::new(&data[..]), Cursor::new(&data[..]));
@@ -589,7 +609,7 @@ fn fd_adapters(ctx: &Ctx, thorough: bool) -> Vec<String> {
 
 pub fn run(tier: Tier, replay: Option<String>) -> i32 {
     let ctx = crate::new_ctx("C13", tier, "exploration", &replay);
-    ctx.set_rule("for every adapter the crate provides (&[u8], &mut [u8], Vec<u8>, Cursor<&[u8]>, Cursor<Vec<u8>>, Cursor<&mut [u8]>, File, OwnedFd, BorrowedFd, UnixStream, TcpStream, Stdout): every stream length 0..=20, every cursor position 0..=22 plus u64::MAX-1 and u64::MAX, every buffer length 0..=20 (single calls, plain and exact form, two buffer misalignments) and every sequence of 2 and 3 (thorough: also 4) consecutive calls over a boundary set of buffer lengths (fd adapters: lengths 0..=9, 2 calls; also read(2)/write(2) that move at most k bytes or are interrupted (EINTR) on every 2nd / 3rd call, descriptors opened in the wrong access mode and datagram sockets, where an empty call is observable: error kinds and the list of datagrams delivered / left are compared) - each executed on the volatile adapter and on its std::io twin with an ordinary buffer; count / error kind, bytes landed, remaining stream / position / vector contents and canaries around the volatile buffer are compared after every call. One case = one call; non-trivial = non-empty buffer; distinct by construction.");
+    ctx.set_rule("for every adapter the crate provides (&[u8], &mut [u8], Vec<u8>, Cursor<&[u8]>, Cursor<Vec<u8>>, Cursor<&mut [u8]>, File, OwnedFd, BorrowedFd, UnixStream, TcpStream, Stdout): every stream length 0..=20 (plus 4096, 65537 and 70001 with buffers of 4095..65537 bytes, single calls and pairs), every cursor position 0..=22 plus u64::MAX-1 and u64::MAX, every buffer length 0..=20 (single calls, plain and exact form, two buffer misalignments) and every sequence of 2 and 3 (thorough: also 4) consecutive calls over a boundary set of buffer lengths (fd adapters: lengths 0..=9, 2 calls; also read(2)/write(2) that move at most k bytes or are interrupted (EINTR) on every 2nd / 3rd call, descriptors opened in the wrong access mode and datagram sockets, where an empty call is observable: error kinds and the list of datagrams delivered / left are compared) - each executed on the volatile adapter and on its std::io twin with an ordinary buffer; count / error kind, bytes landed, remaining stream / position / vector contents and canaries around the volatile buffer are compared after every call. One case = one call; non-trivial = non-empty buffer; distinct by construction.");
     ctx.assume("stream state after a failed exact call is not compared (std leaves it unspecified)");
     if ctx.replay_of.is_some() {
         println!("replay: deterministic enumeration; re-running it");
